@@ -1,5 +1,5 @@
 (* C05 — Reverse mirrors coordinates (parts in mirrored order, none lost). *)
-From GTS Require Import Base Arith Loc Seq BaseLemmas LocProofs EditProofs SeqProofs.
+From GTS Require Import Base Arith Loc Seq BaseLemmas LocProofs EditProofs SeqProofs JoinDen JoinLift.
 Open Scope Z_scope.
 
 (* den (reverse l L) = rev (map (mirror L) (den l)): residue x is denoted
@@ -11,6 +11,20 @@ Theorem C05_reverse_den_partial : forall L l,
   exists l', reverse l L = Ok l' /\ den l' = rev_den L (den l) /\ ord_ok l' = true.
 Proof. exact reverse_den_jfree. Qed.
 Print Assumptions C05_reverse_den_partial.
+
+(* the same statement for EVERY location (joins of every arity included), up to
+   adjacent duplicates, whenever the mirrored leaves are k1-free (see C02) *)
+Theorem C05_reverse_den_joins : forall L l, wf_all range_wf l = true ->
+  k1_after (fun x => reverse x L) l ->
+  forall l', reverse l L = Ok l' -> deq (den l') (rev_den L (den l)).
+Proof. exact reverse_den_all. Qed.
+Print Assumptions C05_reverse_den_joins.
+
+Example C05_joins_example :
+  let l := Joined [Ranged 0 2 true false; Point 2; Complemented (Joined [Ranged 4 5 false false; Ranged 6 8 false true])] in
+  wf_all range_wf l = true /\ k1_afterb (fun x => reverse x 8) l = true /\
+  reverse l 8 = Ok (Joined [Complemented (Joined [Ranged 0 2 true false; Ranged 3 4 false false]); Point 5; Ranged 6 8 false true]).
+Proof. vm_compute. repeat split; reflexivity. Qed.
 
 (* Reverse is an involution on residues *)
 Theorem C05_reverse_bytes_involution : forall s, feats s = [] ->
